@@ -291,6 +291,13 @@ def random_bounds(rng, field, mesh, tag):
             if all(sk[:dim]):
                 sk[int(rng.integers(0, dim))] = 0
             kw["skip"] = tuple(sk)
+            if dim > 1 and rng.integers(0, 2):
+                # a tuple shorter than the field has components (documented, e.g. skip=(False, True) on a 3D field): the
+                # components it does not mention are not skipped
+                kw["skip"] = tuple(sk[: int(rng.integers(1, dim))])
+                if not any(kw["skip"]):
+                    kw["skip"] = (1,) + kw["skip"][1:]
+                feats.append("short-skip")
         elif style == "pointmask":
             kw["mask"] = rng.uniform(size=fm.npoints) < 0.3
         elif style == "dofmask":
@@ -693,7 +700,7 @@ SPEC = {
                        "container-", "container+=", "container-=", "container+list", "getitem", "single-entry-assembly",
                        "solve.partition", "points-without-cells", "fields:2", "fields:3", "loadcase:symmetry",
                        "loadcase:uniaxial", "loadcase:biaxial", "loadcase:shear", "loadcase:uniaxial:values", "loadcase:mixed-container", "loadcase:offset-body"]
-    + ["feature:" + s for s in ("float", "callable", "and", "skip", "pointmask", "dofmask", "array-dim", "array-full", "or2", "three", "array-skip", "mask-skip", "dofmask-skip", "update")],
+    + ["feature:" + s for s in ("float", "callable", "and", "skip", "pointmask", "dofmask", "array-dim", "array-full", "or2", "three", "array-skip", "mask-skip", "dofmask-skip", "update", "short-skip")],
     "rule": ("7 container kinds (1..3 fields, constant/linear/disconnected duals, scalar+vector, points without cells) x random "
              "dictionaries of 1..4 possibly overlapping boundaries (coordinate floats/callables, and/or, skip tuples, point and dof "
              "masks, scalar/array values, both insertion orders) judged by post-conditions on dof.partition/apply against the "
